@@ -1018,6 +1018,7 @@ TRUSTED = [
     "Coq 8.16.1 kernel (coqc, vm_compute for refutation witnesses and case evaluation); no native_compute",
     "axioms: none",
     "correspondence harness harness/props/c17.py (generators, handler-segment tracer, in-Coq replay ok_* of C17/*.v)",
+    "Merkle root hash modelled by the sorted (key, value) list it is computed from (sha256 assumed injective); the anti-entropy peer drawn by random.choice is scripted by the harness and passed to the model as an input",
     "engine semantics assumed by the untimed models and validated per recorded trace: a handler parked on a SimFuture/any_of/all_of is resumed only after it is resolved; a network message is delivered at most once and only after it was sent",
 ]
 
@@ -1040,13 +1041,20 @@ class _Sharded:
 
 
 def run(ctx):
-    ctx.prove(["C17/Model.v", "C17/PBProofs.v", "C17/PBConv.v", "C17/Chain.v", "C17/ChainProofs.v", "C17/ChainConv.v", "C17/PBFifo.v", "C17/ML.v", "C17/MLProofs.v", "C17/RS.v", "C17/Props.v"], allowed_axioms=(), trusted_base=TRUSTED)
+    ctx.prove(["C17/Model.v", "C17/PBProofs.v", "C17/PBConv.v", "C17/Chain.v", "C17/ChainProofs.v", "C17/ChainConv.v", "C17/PBFifo.v", "C17/ChainFifo.v", "C17/ML.v", "C17/MLProofs.v", "C17/RS.v", "C17/Props.v"], allowed_axioms=(), trusted_base=TRUSTED)
     n = ctx.n(40, 400)
     for fam in FAMILIES:
         fam.parallel = fam.parallel and not ctx.quick      # quick: a worker pool costs more than it saves
     stats = [run_family(_Sharded(ctx, fam.name), fam, n * 3 if fam.name == "mlk" else n) for fam in FAMILIES]
     merge_stats(ctx, stats, "random client schedules over 1-3 keys with repeated keys, per-message scripted link delays (messages overtake each other), all modes, 0-3 backups; non-trivial = some key written twice with >= 1 replica; distinct by JSON of the input")
     ctx.finish_obligations()
+    ctx.assumptions += [
+        "convergence under arbitrary reordering is refuted for primary-backup and chain replication (c17_pb_convergence_refuted, c17_chain_convergence_refuted; known findings) and proved under per-link FIFO delivery + per-store FIFO completion (c17_*_convergence_fifo_partial)",
+        "CRAQ clean reads are refuted (c17_craq_clean_read_refuted, c17_craq_check_then_read_witness; two known findings); reads served by the tail are proved committed; non-CRAQ reads at non-tail nodes are outside the claim",
+        "multi-leader: merge laws and order independence are proved for versions whose timestamps respect causality (true in a run when every store write latency is positive); convergence of the handlers after anti-entropy (including the window between the decision and the store write) is checked by the oracle on every generated run, not proved",
+        "ReplicatedStore: ack-implies-applied-everywhere is proved; replica convergence for overlapping puts relies on constant per-replica latencies (no overtaking) and is checked by the oracle only",
+        "SEMI_SYNC with zero backups acknowledges immediately (the 'at least one backup' clause is stated for >= 1 configured backup)",
+    ]
 
 
 def replay(data):
